@@ -6,18 +6,18 @@ LEVEL_TEXT = {}
 # theorem names (in namespace Boario) each property owes; every one must exist in the built
 # environment, be free of sorry, and depend on standard axioms only.
 THEOREMS = {
-    "C03": ["production_branches_agree", "production_nonneg", "production_le_demand", "production_le_capacity",
+    "C03": ["production_feasible_reach", "production_branches_agree", "production_nonneg", "production_le_demand", "production_le_capacity",
             "production_le_stock_support", "production_eq_min3", "production_tight"],
     "C04": ["Layout.writer_reader_agree", "Layout.blocks_inside", "Layout.blocks_disjoint", "Layout.blocks_cover", "Layout.blocks_partition", "deliveries_sum", "deliveries_same_ratio_orders", "deliveries_same_ratio_fd", "deliveries_reb_length",
             "deliveries_same_ratio_reb", "deliveries_le_asked", "fd_unmet_eq", "fd_unmet_range", "reb_prod_eq"],
-    "C05": ["stock_update", "stock_negative_crashes", "stock_nonneg_distribute", "infinite_never_binds",
+    "C05": ["stock_nonneg_reach_inv", "no_crash_real_inputs", "stock_update", "stock_negative_crashes", "stock_nonneg_distribute", "infinite_never_binds",
             "production_ignores_infinite", "stock_nonneg_step", "loop_stops_on_crash", "stock_nonneg_reach"],
-    "C06": ["orders_no_internal", "orders_nonneg", "orders_eq", "orders_sum_noalt", "orders_sum_alt",
+    "C06": ["mkParams_shareSpec", "orders_no_internal", "orders_nonneg", "orders_eq", "orders_sum_noalt", "orders_sum_alt",
             "orders_only_initial_suppliers", "shares_noalt", "shares_alt", "need_eq", "gap_nonneg"],
-    "C07": ["lost_is_sum_of_active", "lost_ignores_inactive", "delta_eq", "delta_range", "delta_zero_unaffected",
+    "C07": ["capital_ingest", "lost_is_sum_of_active", "lost_ignores_inactive", "delta_eq", "delta_range", "delta_zero_unaffected",
             "arb_is_max", "excess_loss_rejected", "capacity_nonneg", "eventsPre_delta"],
     "C01": ["init_at_equilibrium", "equilibrium_step", "equilibrium_step_needs_capital_nonneg", "equilibrium_forever", "equilibrium_loop"],
-    "C08": ["rebuild_split", "rebuild_total_industry", "rebuild_total", "rebuild_split_house", "rebuild_total_house",
+    "C08": ["rebuild_conservation", "rebuild_split", "rebuild_total_industry", "rebuild_total", "rebuild_split_house", "rebuild_total_house",
             "only_rebuilding_sectors", "only_rebuilding_sectors_house", "rebuild_presented", "rebuild_presented_house",
             "settle_nonneg", "settle_exact", "settle_on_grid", "settle_le", "settle_le_first", "settle_zero", "damage_eq",
             "rebuild_antitone_reach"],
@@ -48,7 +48,7 @@ THEOREMS = {
             "Records.helpers_write_own_row", "Records.specs_bijective", "Records.writes_after_their_phase"],
     "C17": ["Storage.run_function", "Storage.isolation", "Storage.fresh_defaults_distinct", "Storage.shared_default_breaks_isolation",
             "Storage.ingest_preserves", "Storage.event_reusable", "Storage.defaults_safe"],
-    "C14": ["Records.phase_order", "alpha_bounds", "alpha_increase_only_if_scarce", "alpha_increase_amount", "alpha_no_increase_when_met",
+    "C14": ["alpha_bounds_reach", "Records.phase_order", "alpha_bounds", "alpha_increase_only_if_scarce", "alpha_increase_amount", "alpha_no_increase_when_met",
             "alpha_drift_to_base"],
 }
 
@@ -56,7 +56,12 @@ THEOREMS = {
 MODULES = {pid: [f"Boario.Properties.{pid}"] for pid in THEOREMS}
 MODULES["C19"] = ["Boario.Properties.C19", "Boario.Properties.C19Run"]
 MODULES["C02"] = ["Boario.Properties.C02", "Boario.Properties.PhaseOrder"]
-MODULES["C14"] = ["Boario.Properties.C14", "Boario.Properties.PhaseOrder"]
+MODULES["C14"] = ["Boario.Properties.C14", "Boario.Properties.PhaseOrder", "Boario.Properties.Reach"]
+MODULES["C03"] = ["Boario.Properties.C03", "Boario.Properties.Reach"]
+MODULES["C05"] = ["Boario.Properties.C05", "Boario.Properties.Reach"]
+MODULES["C07"] = ["Boario.Properties.C07", "Boario.Properties.Reach"]
+MODULES["C08"] = ["Boario.Properties.C08", "Boario.Properties.Reach"]
+MODULES["C06"] = ["Boario.Properties.C06", "Boario.Properties.Reach"]
 MODULES["C11"] = ["Boario.Properties.C11", "Boario.Properties.LayoutThm"]
 MODULES["C04"] = ["Boario.Properties.C04", "Boario.Properties.LayoutThm"]
 
